@@ -163,6 +163,18 @@ def key_function_rule(rep, prog, cfg, type_name, as_str_name, trait, method, cmp
                     continue
                 if not from_as_str:
                     problems.append("operand %d of the comparison does not derive from as_str" % ai)
+                if method in ("cmp", "partial_cmp"):
+                    # direction: `a.cmp(b)` must be the order of the names, not its reverse — operand i of the one comparison
+                    # comes from parameter i (self first), unless the result is explicitly reversed again
+                    psrc = {x[1] for x in fl.sources([l], through_call=identity_through)[0] if x[0] == "param"}
+                    for x in from_as_str:
+                        tt = b.blocks[x[1]]["t"]
+                        psrc |= {y[1] for y in fl.sources([op_local(tt["args"][0])], through_call=identity_through)[0] if y[0] == "param"}
+                    flipped = any(any(n.endswith("Ordering::reverse") for n in callee_names(t2)) for _, t2 in b.calls())
+                    want = {ai + 1} if not flipped else {2 - ai}
+                    if psrc != want:
+                        problems.append("operand %d of the name comparison comes from parameter %s, expected %s: the order of two tags is "
+                                        "the reverse of the order of their protocol names" % (ai, sorted(psrc), sorted(want)))
             if method != "hash":
                 leaves, _ = fl.sources([0], through_call=identity_through)
                 if ("call", bb) not in leaves:
@@ -302,6 +314,42 @@ def tag_rules(rep, prog, cfg):
               "the tag name is transformed before it is matched: %s" % sorted({x for v in tr.values() for x in v}))
     fallback_verbatim(rep, rule, cfg + "/try_from", t, "tag::Tag", "Other", 1)
     rep.sample({"tag_as_str": table})
+
+
+def tag_key_problems(prog):
+    """Shared with C14 / C16 (their decoders key values by the parsed Tag): (where, message) for every way in which two different wire
+    names could end up under one Tag key or a wire name under the wrong one.  None when the tables cannot be extracted."""
+    bs = body_by_name(prog, "mpd_client::tag::Tag::as_str")
+    tf = [b for b in prog.bodies.values() if b.kind == "AssocFn" and norm(b.name) == "<mpd_client::tag::Tag as core::convert::TryFrom<&'a str>>::try_from"]
+    if len(bs) != 1 or len(tf) != 1:
+        return None
+    a, t = bs[0], tf[0]
+    table, sw, err = as_str_table(a, "tag::Tag")
+    if table is None or err:
+        return None
+    named = [v for v in sw["variants"] if v != "Other"]
+    ptab, bad = parse_table(t, "tag::Tag")
+    out = []
+    if bad:
+        out.append((t.loc(t.span), "Tag::try_from has comparisons without a unique variant: %s" % bad))
+    by_fold = {}
+    for lit, ci, v in ptab:
+        by_fold.setdefault(lit.lower(), []).append(v)
+    for v in named:
+        n = table.get(v)
+        if n is None:
+            out.append((a.loc(a.span), "Tag::%s has no protocol name" % v))
+            continue
+        got = by_fold.get(n.lower())
+        if got != [v]:
+            out.append((t.loc(t.span), "the field name %r decodes to %s, but it is the protocol name of Tag::%s: its values are filed under another tag"
+                        % (n, got, v)))
+    names = [table[v] for v in named if v in table]
+    dup = sorted({n for n in names if [x.lower() for x in names].count(n.lower()) > 1})
+    if dup:
+        out.append((a.loc(a.span), "several Tag variants share the protocol name %s: Tag compares and hashes by that name, so their values collapse "
+                    "into one map entry" % dup))
+    return out, len(named)
 
 
 def subsystem_rules(rep, prog, cfg):
